@@ -133,6 +133,16 @@ pub fn run(seed: u64, tier: &str, filter: &str, count: Option<u64>, out: &mut dy
                     }
                 }
             }
+            if name.ends_with("VECTOR.RAND") && case % 5 == 2 {
+                // directed: the documented guards of the RAND instructions at their boundary - size exactly 0 / -1 / 1
+                // combined with an empty, reversed or valid value range and an out-of-range, NaN or valid parameter
+                let (a, b) = *r.pick(&[(5, 1), (4, 4), (-3, -9), (1, 5), (0, 0), (-2, 7)]);
+                st.int_stack.push(a);
+                st.int_stack.push(b);
+                st.int_stack.push(*r.pick(&[0, 0, -1, 1]));
+                st.float_stack.push(*r.pick(&[1.5f32, -0.1, f32::NAN, 0.0, 1.0, -1.0, 0.5]));
+                st.float_stack.push(*r.pick(&[1.5f32, -0.1, f32::NAN, 0.0, 1.0, -1.0, 0.5]));
+            }
             if name.starts_with("LIST.NEIGHBOR") && name.ends_with("VALS") && r.chance(3, 4) {
                 // well-formed use: one record per cell, each a list with values of all three types before, inside and
                 // after a sub-list; a small position operand; size around the number of records
@@ -637,5 +647,13 @@ pub fn run_unreg(seed: u64, tier: &str, out: &mut dyn FnMut(String)) {
             let st = gen_state(&mut r, &GenOpts { instrs: &names, rich, item_depth: 2 });
             out(observe(&mut iset, name, st));
         }
+    }
+    // `input_flush` (doc comment: INPUT.FLUSH) is public but not registered either
+    iset.add("INPUT.FLUSH".to_string(), Instruction::new(pushr::push::io::input_flush));
+    let names = instruction_names();
+    for k in 0..(if tier == "thorough" { 2000 } else { 300 }) {
+        let mut r = Rng::for_case(seed, "unreg:INPUT.FLUSH", k);
+        let st = gen_state(&mut r, &GenOpts { instrs: &names, rich: k % 2 == 0, item_depth: 2 });
+        out(observe(&mut iset, "INPUT.FLUSH", st));
     }
 }
